@@ -1,7 +1,8 @@
 (* C07 - every renderer terminates on every cause graph: proofs.
    1. renderers over the pruned tree are structural and visit every node of the tree once
    2. json.Marshal: terminates when no cycle passes through an errdef node (rank); more fuel never
-      changes a result; diverges on the 2-cycle through an errdef node (K1)
+      changes a result; diverges on the 2-cycle through an errdef node (K1); out of fuel |g| means
+      out of every fuel (pigeonhole on the nodes whose result still changes)
    3. %#v: terminates when the map-kinded nodes have no cycle; diverges on a map that contains
       itself (K7)
    4. the source-snippet reader and its memo
@@ -309,6 +310,216 @@ Proof.
   intros fuel. apply H.
 Qed.
 (* ====================================================================== *)
+(* 2b. the fuel of the check decides: out of fuel at |g| = out of every fuel *)
+(* ====================================================================== *)
+Definition cls (r : jres) : nat := match r with JOk _ => 0 | JFail => 1 | JOut => 2 end.
+
+Lemma cls_jcons d d' r r' : cls r = cls r' -> cls (jcons d r) = cls (jcons d' r').
+Proof. destruct r, r'; simpl; congruence. Qed.
+
+Lemma cls_jseq_map {A} (f f' : A -> jres) l :
+  (forall a, In a l -> cls (f a) = cls (f' a)) -> cls (jseq_map f l) = cls (jseq_map f' l).
+Proof.
+  induction l as [|a r IH]; intros H; [reflexivity|]. cbn [jseq_map].
+  pose proof (H a (or_introl eq_refl)) as Ha.
+  assert (Hr := IH (fun x Hx => H x (or_intror Hx))).
+  destruct (f a), (f' a); simpl in Ha; try discriminate; try reflexivity.
+  destruct (jseq_map f r), (jseq_map f' r); simpl in Hr; try discriminate; reflexivity.
+Qed.
+
+Lemma cls_marshal_node g re : (forall m d d', cls (re m d) = cls (re m d')) ->
+  forall t d d', cls (marshal_node g re d t) = cls (marshal_node g re d' t).
+Proof.
+  intros Hre. induction t as [m c kids IH] using tree_ind'. intros d d'. cbn [marshal_node].
+  destruct (is_errdef g m); apply cls_jcons; [apply Hre|].
+  apply cls_jseq_map. intros t Hin. rewrite Forall_forall in IH. apply IH. exact Hin.
+Qed.
+
+Lemma cls_marshal_err g bad : forall f n d d', cls (marshal_err f g bad n d) = cls (marshal_err f g bad n d').
+Proof.
+  induction f as [|f IH]; intros n d d'; [reflexivity|]. cbn [marshal_err].
+  destruct (inb n bad); [reflexivity|]. destruct (unwrap_tree g n) as [ts|]; [|reflexivity].
+  unfold marshal_nodes. apply cls_jseq_map. intros t _. apply cls_marshal_node. intros m e e'. apply IH.
+Qed.
+
+Lemma out_any_depth g bad f n d d' : marshal_err f g bad n d = JOut -> marshal_err f g bad n d' = JOut.
+Proof.
+  intros H. pose proof (cls_marshal_err g bad f n d d') as C. rewrite H in C.
+  destruct (marshal_err f g bad n d'); simpl in C; congruence.
+Qed.
+
+(* where two runs of a sequence differ: the first element that ran out of fuel *)
+Lemma flip_list {A} (f1 f2 : A -> jres) l :
+  (forall a, In a l -> f1 a <> JOut -> f2 a = f1 a) ->
+  jseq_map f1 l = JOut -> jseq_map f2 l <> JOut ->
+  exists a, In a l /\ f1 a = JOut /\ f2 a <> JOut.
+Proof.
+  induction l as [|a r IH]; intros Hm H1 H2; cbn [jseq_map] in *; [discriminate|].
+  destruct (f1 a) as [s1| |] eqn:E1.
+  - assert (E2 : f2 a = JOk s1) by (rewrite <- E1; apply Hm; [left; reflexivity|congruence]).
+    rewrite E2 in H2.
+    destruct (IH (fun x Hx => Hm x (or_intror Hx))) as [x [Hx Hf]].
+    + destruct (jseq_map f1 r); congruence.
+    + destruct (jseq_map f2 r); congruence.
+    + exists x. split; [right; exact Hx|exact Hf].
+  - discriminate.
+  - exists a. split; [left; reflexivity|]. split; [exact E1|]. intros E2. rewrite E2 in H2. congruence.
+Qed.
+
+Lemma jcons_out d r : jcons d r = JOut -> r = JOut.
+Proof. destruct r; simpl; congruence. Qed.
+Lemma jcons_not_out d r : jcons d r <> JOut -> r <> JOut.
+Proof. destruct r; simpl; congruence. Qed.
+
+Lemma flip_node g (re1 re2 : nat -> nat -> jres) (P : nat -> Prop) :
+  (forall m d, re1 m d <> JOut -> re2 m d = re1 m d) ->
+  forall t d, AllN P t -> marshal_node g re1 d t = JOut -> marshal_node g re2 d t <> JOut ->
+  exists m d', P m /\ re1 m d' = JOut /\ re2 m d' <> JOut.
+Proof.
+  intros Hm. induction t as [m c kids IH] using tree_ind'. intros d A H1 H2. inversion A; subst.
+  cbn [marshal_node] in *. destruct (is_errdef g m).
+  - exists m, (S d). split; [assumption|]. split; [eapply jcons_out; exact H1|eapply jcons_not_out; exact H2].
+  - apply jcons_out in H1. apply jcons_not_out in H2.
+    destruct (flip_list (marshal_node g re1 (S d)) (marshal_node g re2 (S d)) kids) as [t [Hin [E1 E2]]]; auto.
+    { intros t _ F. apply marshal_node_mono; [exact Hm|exact F]. }
+    rewrite Forall_forall in *. eapply IH; eauto.
+Qed.
+
+(* the nodes of a built tree are nodes of the graph *)
+Lemma build_node_inrange g : forall fuel n vm t vm', build_node fuel g n vm = Some (Some t, vm') ->
+  AllN (fun m => m < List.length g) t.
+Proof.
+  induction fuel as [|f IH]; intros n vm t vm' H; [discriminate|].
+  cbn [build_node] in H. destruct (nth_error g n) as [nd|] eqn:En; [|discriminate].
+  assert (Hn : n < List.length g) by (apply nth_error_Some; congruence).
+  assert (Kids : forall vm0 kids vm2, build_list (build_node f g) (causes_of nd) vm0 = Some (kids, vm2) ->
+                 Forall (AllN (fun m => m < List.length g)) kids).
+  { intros vm0 kids vm2 E.
+    eapply (build_list_AllN (build_node f g) _ (fun _ => True)); [| |exact E]; [|auto].
+    intros c vm1 t1 vm1' _ E1. eapply IH. exact E1. }
+  destruct (g_key nd) as [ptr|].
+  - destruct (vmem ptr vm); [discriminate|].
+    destruct (build_list (build_node f g) (causes_of nd) (vset ptr ptr vm)) as [[kids vm2]|] eqn:E; [|discriminate].
+    destruct (on_exit ptr vm2) as [cyc vm3]. inversion H; subst. constructor; [exact Hn|]. eapply Kids. exact E.
+  - destruct (build_list (build_node f g) (causes_of nd) vm) as [[kids vm2]|] eqn:E; [|discriminate].
+    inversion H; subst. constructor; [exact Hn|]. eapply Kids. exact E.
+Qed.
+
+Lemma unwrap_tree_inrange g n ts : unwrap_tree g n = Some ts ->
+  Forall (AllN (fun m => m < List.length g)) ts.
+Proof.
+  intros H. unfold unwrap_tree in H. destruct (build_cause_tree_inv _ _ _ _ H) as [nd [vm [En E]]].
+  unfold build_nodes in E.
+  eapply (build_list_AllN (build_node (fuel_bound g) g) _ (fun _ => True)); [| |exact E]; [|auto].
+  intros c vm1 t1 vm1' _ E1. eapply build_node_inrange. exact E1.
+Qed.
+
+Section Decide.
+  Variable g : graph.
+  Variable bad : list nat.
+
+  (* n runs out of fuel k but not of fuel k+1 *)
+  Definition flips (n k : nat) : Prop :=
+    exists d, marshal_err k g bad n d = JOut /\ marshal_err (S k) g bad n d <> JOut.
+
+  Lemma flips_unique n k k' : flips n k -> flips n k' -> k = k'.
+  Proof.
+    assert (W : forall a b, flips n a -> flips n b -> a < b -> False).
+    { intros a b [d [_ Ha]] [d' [Hb _]] Hlt.
+      apply (out_any_depth g bad b n d' d) in Hb.
+      rewrite (marshal_err_mono g bad (S a) n d Ha b) in Hb by lia. contradiction. }
+    intros H1 H2. destruct (Nat.lt_trichotomy k k') as [L|[E|L]]; [exfalso; exact (W k k' H1 H2 L)|exact E|exfalso; exact (W k' k H2 H1 L)].
+  Qed.
+
+  Lemma flips_step n k : flips n (S k) -> exists m, m < List.length g /\ flips m k.
+  Proof.
+    intros [d [H1 H2]]. cbn [marshal_err] in H1. change (marshal_err (S (S k)) g bad n d) with
+      (if inb n bad then JFail else match unwrap_tree g n with
+                                    | None => JOut
+                                    | Some ts => marshal_nodes g (marshal_err (S k) g bad) d ts end) in H2.
+    destruct (inb n bad); [discriminate|]. destruct (unwrap_tree g n) as [ts|] eqn:Et; [|congruence].
+    pose proof (unwrap_tree_inrange g n ts Et) as A. unfold marshal_nodes in *.
+    assert (Hm : forall m e, marshal_err k g bad m e <> JOut -> marshal_err (S k) g bad m e = marshal_err k g bad m e).
+    { intros m e F. apply marshal_err_mono; [exact F|lia]. }
+    destruct (flip_list (marshal_node g (marshal_err k g bad) d) (marshal_node g (marshal_err (S k) g bad) d) ts)
+      as [t [Hin [E1 E2]]]; auto.
+    { intros t _ F. apply marshal_node_mono; [exact Hm|exact F]. }
+    rewrite Forall_forall in A.
+    destruct (flip_node g _ _ (fun m => m < List.length g) Hm t d (A t Hin) E1 E2) as [m [d' [Hr [F1 F2]]]].
+    exists m. split; [exact Hr|]. exists d'. split; assumption.
+  Qed.
+
+  Lemma flips_chain : forall k n, n < List.length g -> flips n k ->
+    exists l, List.length l = S k /\ NoDup l /\
+              forall m, In m l -> m < List.length g /\ exists j, j <= k /\ flips m j.
+  Proof.
+    induction k as [|k IH]; intros n Hn Hf.
+    - exists [n]. split; [reflexivity|]. split; [constructor; [intros []|constructor]|].
+      intros m [<-|[]]. split; [exact Hn|]. exists 0. split; [lia|exact Hf].
+    - destruct (flips_step n k Hf) as [m [Hm Hfm]]. destruct (IH m Hm Hfm) as [l [Hl [Hnd Hall]]].
+      exists (n :: l). split; [simpl; lia|]. split.
+      + constructor; [|exact Hnd]. intros Hin. destruct (Hall n Hin) as [_ [j [Hj Hfj]]].
+        pose proof (flips_unique n _ _ Hf Hfj). lia.
+      + intros x [<-|Hx]; [split; [exact Hn|]; exists (S k); split; [lia|exact Hf]|].
+        destruct (Hall x Hx) as [Hr [j [Hj Hfj]]]. split; [exact Hr|]. exists j. split; [lia|exact Hfj].
+  Qed.
+
+  Lemma flips_bound n k : n < List.length g -> flips n k -> S k <= List.length g.
+  Proof.
+    intros Hn Hf. destruct (flips_chain k n Hn Hf) as [l [Hl [Hnd Hall]]]. rewrite <- Hl.
+    rewrite <- (seq_length (List.length g) 0). apply NoDup_incl_length; [exact Hnd|].
+    intros m Hm. apply in_seq. destruct (Hall m Hm). lia.
+  Qed.
+
+  Lemma fin_flips n d : forall f, marshal_err f g bad n d <> JOut ->
+    exists k, k < f /\ marshal_err k g bad n d = JOut /\ marshal_err (S k) g bad n d <> JOut.
+  Proof.
+    induction f as [|f IH]; intros F; [exfalso; apply F; reflexivity|].
+    destruct (marshal_err f g bad n d) eqn:E.
+    - destruct IH as [k [Hk Hf]]; [congruence|]. exists k. split; [lia|exact Hf].
+    - destruct IH as [k [Hk Hf]]; [congruence|]. exists k. split; [lia|exact Hf].
+    - exists f. split; [lia|]. split; [exact E|exact F].
+  Qed.
+
+  (* out of fuel |g| (or more): out of every fuel, at every depth *)
+  Theorem out_decides n d F : n < List.length g -> List.length g <= F ->
+    marshal_err F g bad n d = JOut -> forall f d', marshal_err f g bad n d' = JOut.
+  Proof.
+    intros Hn HF Hout f d'. apply (out_any_depth g bad f n d d').
+    destruct (marshal_err f g bad n d) eqn:E; [| |reflexivity]; exfalso.
+    - destruct (fin_flips n d f ltac:(congruence)) as [k [_ [H1 H2]]].
+      pose proof (flips_bound n k Hn (ex_intro _ d (conj H1 H2))) as B.
+      rewrite (marshal_err_mono g bad (S k) n d H2 F) in Hout by lia. contradiction.
+    - destruct (fin_flips n d f ltac:(congruence)) as [k [_ [H1 H2]]].
+      pose proof (flips_bound n k Hn (ex_intro _ d (conj H1 H2))) as B.
+      rewrite (marshal_err_mono g bad (S k) n d H2 F) in Hout by lia. contradiction.
+  Qed.
+End Decide.
+
+(* the verdict of the check's model: Diverge = out of every fuel; otherwise the same result for
+   every fuel from |g| on *)
+Lemma json_fuel_decides g bad n : n < List.length g ->
+  (marshal_g (json_fuel g) g bad n = JOut -> forall fuel, marshal_g fuel g bad n = JOut) /\
+  (marshal_g (json_fuel g) g bad n <> JOut ->
+     forall fuel, json_fuel g <= fuel -> marshal_g fuel g bad n = marshal_g (json_fuel g) g bad n).
+Proof.
+  intros Hn. unfold marshal_g, json_fuel. split.
+  - intros H fuel. eapply out_decides; [exact Hn| |exact H]. lia.
+  - intros H fuel Hf. apply marshal_err_mono; [exact H|exact Hf].
+Qed.
+
+(* hence no bound on the rank is needed for the fuel of the check *)
+Lemma json_fuel_suffices_any_rank g bad rank : G g -> edge_ranked g rank ->
+  forall n, is_errdef g n = true -> fin (marshal_g (json_fuel g) g bad n).
+Proof.
+  intros HG Hr n He Hout.
+  destruct (is_errdef_nth _ _ He) as [nd [En _]].
+  assert (Hn : n < List.length g) by (apply nth_error_Some; congruence).
+  pose proof (proj1 (json_fuel_decides g bad n Hn) Hout (S (rank n))) as H.
+  exact (marshal_err_fin g bad rank HG Hr (rank n) n 0 (le_n _) He H).
+Qed.
+
+(* ====================================================================== *)
 (* 3. %#v                                                                  *)
 (* ====================================================================== *)
 (* no cycle among the inline-kinded nodes *)
@@ -571,13 +782,13 @@ Definition render_guard (r : rcase) : Prop :=
   let g := c_graph r in
   G g /\ c_recv r < List.length g /\ is_errdef g (c_recv r) = true /\
   a_cycf (c_attrs r) = [] /\
-  (exists rank, edge_ranked g rank /\ rank (c_recv r) <= List.length g) /\
+  (exists rank, edge_ranked g rank) /\
   (exists rk, inline_ranked g (a_inline (c_attrs r)) rk /\
               forall c, In c (c_direct r) -> c < List.length g /\ rk c <= List.length g).
 
 Lemma model_native_total r : render_guard r -> model_native r <> MDiverge.
 Proof.
-  intros [HG [Hr [He [Hc [[rank [Hrk Hb]] [rk [Hik Hd]]]]]]]. unfold model_native.
+  intros [HG [Hr [He [Hc [[rank Hrk] [rk [Hik Hd]]]]]]]. unfold model_native.
   destruct (c_rk r) as [k|].
   - assert (T : forall k', walks k' = true ->
         match unwrap_tree (c_graph r) (c_recv r) with
@@ -592,7 +803,7 @@ Proof.
                 (gs_fuel (c_graph r))) as [sh ->].
     + intros c Hin. unfold gs_fuel. destruct (Hd c Hin). lia.
     + cbn. congruence.
-  - pose proof (json_fuel_suffices _ (a_bad (c_attrs r)) rank HG Hrk _ He Hb) as F. unfold fin in F.
+  - pose proof (json_fuel_suffices_any_rank _ (a_bad (c_attrs r)) rank HG Hrk _ He) as F. unfold fin in F.
     destruct (marshal_g _ _ _ _); cbn; congruence.
 Qed.
 
@@ -634,16 +845,16 @@ Qed.
 Definition render_guardb (r : rcase) (rank rk : nat -> nat) : bool :=
   let g := c_graph r in
   Gb g && Nat.ltb (c_recv r) (List.length g) && is_errdef g (c_recv r) && is_nil (a_cycf (c_attrs r))
-  && edge_rankedb g rank && Nat.leb (rank (c_recv r)) (List.length g)
+  && edge_rankedb g rank
   && inline_rankedb g (a_inline (c_attrs r)) rk
   && forallb (fun c => Nat.ltb c (List.length g) && Nat.leb (rk c) (List.length g)) (c_direct r).
 Lemma render_guardb_sound r rank rk : render_guardb r rank rk = true -> render_guard r.
 Proof.
   unfold render_guardb, render_guard. rewrite !andb_true_iff.
-  intros [[[[[[[H1 H2] H3] H4] H5] H6] H7] H8].
+  intros [[[[[[H1 H2] H3] H4] H5] H7] H8].
   split; [apply Gb_sound; exact H1|]. split; [apply Nat.ltb_lt; exact H2|]. split; [exact H3|].
   split; [destruct (a_cycf (c_attrs r)); [reflexivity|discriminate]|].
-  split; [exists rank; split; [apply edge_rankedb_sound; exact H5|apply Nat.leb_le; exact H6]|].
+  split; [exists rank; apply edge_rankedb_sound; exact H5|].
   exists rk. split; [apply inline_rankedb_sound; exact H7|].
   intros c Hc. rewrite forallb_forall in H8. specialize (H8 c Hc). apply andb_true_iff in H8 as [A B].
   split; [apply Nat.ltb_lt; exact A|apply Nat.leb_le; exact B].
